@@ -3,6 +3,8 @@
 //! the result of every query of the API.  Scripts are the same events without results.
 use crate::common::*;
 use crate::ix::*;
+use petgraph::acyclic::{Acyclic, AcyclicEdgeError};
+use petgraph::data::Build;
 use petgraph::graph::{EdgeIndex, Graph, GraphError, IndexType, NodeIndex};
 use petgraph::stable_graph::StableGraph;
 use petgraph::visit::{EdgeIndexable, EdgeRef, IntoEdgeReferences, IntoNodeReferences, NodeIndexable};
@@ -15,6 +17,9 @@ pub enum Obj<Ix: IndexType> {
     GU(Graph<i32, i32, Undirected, Ix>),
     SD(StableGraph<i32, i32, Directed, Ix>),
     SU(StableGraph<i32, i32, Undirected, Ix>),
+    /// C14: the two inner types Acyclic supports
+    AGD(Acyclic<Graph<i32, i32, Directed, Ix>>),
+    ASD(Acyclic<StableGraph<i32, i32, Directed, Ix>>),
 }
 
 /// run `$body` with `$g` bound to the container, whatever its type (shared method names only)
@@ -25,6 +30,20 @@ macro_rules! on {
             Obj::GU($g) => $body,
             Obj::SD($g) => $body,
             Obj::SU($g) => $body,
+            Obj::AGD(a) => { let $g = a.inner(); $body }
+            Obj::ASD(a) => { let $g = a.inner(); $body }
+        }
+    };
+}
+/// mutable access: only for the bare containers (the generator never asks for these ops while wrapped)
+macro_rules! onm {
+    ($o:expr, $g:ident => $body:expr) => {
+        match $o {
+            Obj::GD($g) => $body,
+            Obj::GU($g) => $body,
+            Obj::SD($g) => $body,
+            Obj::SU($g) => $body,
+            _ => panic!("operation not available through Acyclic"),
         }
     };
 }
@@ -230,10 +249,28 @@ impl<Ix: IndexType> Driver<Ix> {
         self.serial
     }
     pub fn is_stable(&self) -> bool {
-        matches!(self.obj, Obj::SD(_) | Obj::SU(_))
+        matches!(self.obj, Obj::SD(_) | Obj::SU(_) | Obj::ASD(_))
     }
     pub fn is_directed(&self) -> bool {
-        matches!(self.obj, Obj::GD(_) | Obj::SD(_))
+        matches!(self.obj, Obj::GD(_) | Obj::SD(_) | Obj::AGD(_) | Obj::ASD(_))
+    }
+    pub fn is_acyclic_wrapped(&self) -> bool {
+        matches!(self.obj, Obj::AGD(_) | Obj::ASD(_))
+    }
+    /// nodes_iter plus the consistency of get_position / at_position with it (positions are opaque)
+    fn ac_info(&self) -> (Vec<usize>, bool, bool) {
+        macro_rules! info { ($a:expr) => {{
+            let a = $a;
+            let ord: Vec<_> = a.nodes_iter().collect();
+            let pos_inc = ord.windows(2).all(|w| a.get_position(w[0]) < a.get_position(w[1]));
+            let atpos = ord.iter().all(|&n| a.at_position(a.get_position(n)) == Some(n));
+            (ord.iter().map(|n| n.index()).collect(), pos_inc, atpos)
+        }}}
+        match &self.obj {
+            Obj::AGD(a) => info!(a),
+            Obj::ASD(a) => info!(a),
+            _ => (vec![], true, true),
+        }
     }
     pub fn counts(&self) -> (usize, usize, usize, usize) {
         on!(&self.obj, g => (g.node_count(), g.edge_count(), g.node_bound(), g.edge_bound()))
@@ -309,57 +346,57 @@ impl<Ix: IndexType> Driver<Ix> {
                 ev["ix"] = json!(self.ixname);
                 rs("ok")
             }
-            "try_add_node" => on!(&mut self.obj, g => res_n(g.try_add_node(w))),
-            "add_node" => on!(&mut self.obj, g => or_panic(guard(|| ri(g.add_node(w).index())))),
+            "try_add_node" => onm!(&mut self.obj, g => res_n(g.try_add_node(w))),
+            "add_node" => onm!(&mut self.obj, g => or_panic(guard(|| ri(g.add_node(w).index())))),
             "try_add_edge" => {
                 let (a, b) = (u(op, "a"), u(op, "b"));
-                on!(&mut self.obj, g => or_panic(guard(|| res_e(g.try_add_edge(ni(a), ni(b), w)))))
+                onm!(&mut self.obj, g => or_panic(guard(|| res_e(g.try_add_edge(ni(a), ni(b), w)))))
             }
             "add_edge" => {
                 let (a, b) = (u(op, "a"), u(op, "b"));
-                on!(&mut self.obj, g => or_panic(guard(|| ri(g.add_edge(ni(a), ni(b), w).index()))))
+                onm!(&mut self.obj, g => or_panic(guard(|| ri(g.add_edge(ni(a), ni(b), w).index()))))
             }
             "try_update_edge" => {
                 let (a, b) = (u(op, "a"), u(op, "b"));
-                on!(&mut self.obj, g => or_panic(guard(|| res_e(g.try_update_edge(ni(a), ni(b), w)))))
+                onm!(&mut self.obj, g => or_panic(guard(|| res_e(g.try_update_edge(ni(a), ni(b), w)))))
             }
             "update_edge" => {
                 let (a, b) = (u(op, "a"), u(op, "b"));
-                on!(&mut self.obj, g => or_panic(guard(|| ri(g.update_edge(ni(a), ni(b), w).index()))))
+                onm!(&mut self.obj, g => or_panic(guard(|| ri(g.update_edge(ni(a), ni(b), w).index()))))
             }
             "remove_edge" => {
                 let e = u(op, "e");
                 want_st = true;
-                on!(&mut self.obj, g => or_panic(guard(|| opt_w(g.remove_edge(ei(e))))))
+                onm!(&mut self.obj, g => or_panic(guard(|| opt_w(g.remove_edge(ei(e))))))
             }
             "remove_node" => {
                 let a = u(op, "a");
                 want_st = true;
-                on!(&mut self.obj, g => or_panic(guard(|| opt_w(g.remove_node(ni(a))))))
+                onm!(&mut self.obj, g => or_panic(guard(|| opt_w(g.remove_node(ni(a))))))
             }
             "reverse" => {
-                on!(&mut self.obj, g => g.reverse());
+                onm!(&mut self.obj, g => g.reverse());
                 rs("ok")
             }
             "clear" => {
-                on!(&mut self.obj, g => g.clear());
+                onm!(&mut self.obj, g => g.clear());
                 rs("ok")
             }
             "clear_edges" => {
-                on!(&mut self.obj, g => g.clear_edges());
+                onm!(&mut self.obj, g => g.clear_edges());
                 rs("ok")
             }
             "set_node_weight" => {
                 let a = u(op, "a");
                 let via = op["via"].as_str().unwrap_or("node_weight_mut");
                 match via {
-                    "index_mut" => on!(&mut self.obj, g => {
+                    "index_mut" => onm!(&mut self.obj, g => {
                         // IndexMut panics on an absent node; the spec models the Option-returning call,
                         // so only use it when the node exists
                         if g.node_weight(ni(a)).is_some() { let old = g[ni::<Ix>(a)]; g[ni::<Ix>(a)] = w; json!(["i", old]) }
                         else { match guard(|| g[ni::<Ix>(a)]) { Ok(_) => json!(["i", -7]), Err(()) => rnone() } }
                     }),
-                    "node_weights_mut" => on!(&mut self.obj, g => {
+                    "node_weights_mut" => onm!(&mut self.obj, g => {
                         // position of `a` among the live nodes
                         let pos = g.node_indices().position(|i| i.index() == a);
                         match pos {
@@ -367,34 +404,34 @@ impl<Ix: IndexType> Driver<Ix> {
                             None => rnone(),
                         }
                     }),
-                    _ => on!(&mut self.obj, g => match g.node_weight_mut(ni(a)) { Some(r) => { let old = *r; *r = w; json!(["i", old]) } None => rnone() }),
+                    _ => onm!(&mut self.obj, g => match g.node_weight_mut(ni(a)) { Some(r) => { let old = *r; *r = w; json!(["i", old]) } None => rnone() }),
                 }
             }
             "set_edge_weight" => {
                 let e = u(op, "e");
                 let via = op["via"].as_str().unwrap_or("edge_weight_mut");
                 match via {
-                    "index_mut" => on!(&mut self.obj, g => {
+                    "index_mut" => onm!(&mut self.obj, g => {
                         if g.edge_weight(ei(e)).is_some() { let old = g[ei::<Ix>(e)]; g[ei::<Ix>(e)] = w; json!(["i", old]) }
                         else { match guard(|| g[ei::<Ix>(e)]) { Ok(_) => json!(["i", -7]), Err(()) => rnone() } }
                     }),
-                    "edge_weights_mut" => on!(&mut self.obj, g => {
+                    "edge_weights_mut" => onm!(&mut self.obj, g => {
                         let pos = g.edge_indices().position(|i| i.index() == e);
                         match pos {
                             Some(p) => { let r = g.edge_weights_mut().nth(p).unwrap(); let old = *r; *r = w; json!(["i", old]) }
                             None => rnone(),
                         }
                     }),
-                    _ => on!(&mut self.obj, g => match g.edge_weight_mut(ei(e)) { Some(r) => { let old = *r; *r = w; json!(["i", old]) } None => rnone() }),
+                    _ => onm!(&mut self.obj, g => match g.edge_weight_mut(ei(e)) { Some(r) => { let old = *r; *r = w; json!(["i", old]) } None => rnone() }),
                 }
             }
             "index_twice_ne" => {
                 let (a, e) = (u(op, "a"), u(op, "e"));
-                on!(&mut self.obj, g => match guard(|| { let (x, y) = g.index_twice_mut(ni::<Ix>(a), ei::<Ix>(e)); std::mem::swap(x, y); }) { Ok(()) => rs("ok"), Err(()) => rpanic() })
+                onm!(&mut self.obj, g => match guard(|| { let (x, y) = g.index_twice_mut(ni::<Ix>(a), ei::<Ix>(e)); std::mem::swap(x, y); }) { Ok(()) => rs("ok"), Err(()) => rpanic() })
             }
             "index_twice_nn" => {
                 let (a, b) = (u(op, "a"), u(op, "b"));
-                on!(&mut self.obj, g => match guard(|| { let (x, y) = g.index_twice_mut(ni::<Ix>(a), ni::<Ix>(b)); std::mem::swap(x, y); }) { Ok(()) => rs("ok"), Err(()) => rpanic() })
+                onm!(&mut self.obj, g => match guard(|| { let (x, y) = g.index_twice_mut(ni::<Ix>(a), ni::<Ix>(b)); std::mem::swap(x, y); }) { Ok(()) => rs("ok"), Err(()) => rpanic() })
             }
             "noeffect" => {
                 let which = op["which"].as_str().unwrap_or("clone");
@@ -406,6 +443,8 @@ impl<Ix: IndexType> Driver<Ix> {
                             Obj::GU(g) => Obj::GU(g.clone()),
                             Obj::SD(g) => Obj::SD(g.clone()),
                             Obj::SU(g) => Obj::SU(g.clone()),
+                            Obj::AGD(g) => Obj::AGD(g.clone()),
+                            Obj::ASD(g) => Obj::ASD(g.clone()),
                         }
                     }
                     "clone_from" => {
@@ -414,6 +453,8 @@ impl<Ix: IndexType> Driver<Ix> {
                             Obj::GU(g) => { let mut h = Graph::with_capacity(1, 1); h.add_node(99); h.clone_from(g); Obj::GU(h) }
                             Obj::SD(g) => { let mut h = StableGraph::with_capacity(1, 1); h.add_node(99); h.clone_from(g); Obj::SD(h) }
                             Obj::SU(g) => { let mut h = StableGraph::with_capacity(1, 1); h.add_node(99); h.clone_from(g); Obj::SU(h) }
+                            Obj::AGD(g) => Obj::AGD(g.clone()),
+                            Obj::ASD(g) => Obj::ASD(g.clone()),
                         }
                     }
                     "reserve" => match &mut self.obj {
@@ -472,7 +513,7 @@ impl<Ix: IndexType> Driver<Ix> {
                 let (nc, ec, _, _) = self.counts();
                 log.ev(json!({"op":"retain_begin","kind":kind,"ret":rs("ok"),"nc":nc,"ec":ec}));
                 let mut visits: Vec<Value> = vec![];
-                let res = on!(&mut self.obj, g => guard(|| {
+                let res = onm!(&mut self.obj, g => guard(|| {
                     if kind == "node" {
                         g.retain_nodes(|fz, i| {
                             let w = fz[i];
@@ -519,7 +560,7 @@ impl<Ix: IndexType> Driver<Ix> {
                     };
                     rs("ok")
                 } else {
-                    on!(&mut self.obj, g => match guard(|| g.extend_with_edges(it)) { Ok(()) => rs("ok"), Err(()) => rpanic() })
+                    onm!(&mut self.obj, g => match guard(|| g.extend_with_edges(it)) { Ok(()) => rs("ok"), Err(()) => rpanic() })
                 }
             }
             "map" | "filter_map" => {
@@ -552,6 +593,7 @@ impl<Ix: IndexType> Driver<Ix> {
                     Obj::GU(g) => domap!(g, Obj::GU),
                     Obj::SD(g) => domap!(g, Obj::SD),
                     Obj::SU(g) => domap!(g, Obj::SU),
+                    _ => panic!("map not available through Acyclic"),
                 };
                 self.obj = newobj;
                 self.serial = ctr.get() + 1;
@@ -562,9 +604,101 @@ impl<Ix: IndexType> Driver<Ix> {
             }
             "obs" => {
                 self.nobs += 1;
-                let o = on!(&self.obj, g => observe!(g, rng, ixmax));
+                let mut o = on!(&self.obj, g => observe!(g, rng, ixmax));
+                if self.is_acyclic_wrapped() {
+                    let (ord, pos_inc, atpos_ok) = self.ac_info();
+                    macro_rules! acobs { ($a:expr) => {{
+                        let a = $a;
+                        let live: Vec<usize> = ord.clone();
+                        let mut valid = vec![];
+                        for &x in live.iter().take(6) { for &y in live.iter().take(6) {
+                            valid.push(json!([x, y, a.is_valid_edge(ni(x), ni(y))]));
+                        } }
+                        let mut ranges = vec![];
+                        for _ in 0..3 {
+                            if ord.is_empty() { break; }
+                            let i = rng.below(ord.len());
+                            let j = i + rng.below(ord.len() - i);
+                            let r: Vec<usize> = a.range(a.get_position(ni(ord[i]))..=a.get_position(ni(ord[j]))).map(|n| n.index()).collect();
+                            let r2: Vec<usize> = a.range(a.get_position(ni(ord[i]))..).map(|n| n.index()).collect();
+                            if r2 != ord[i..].to_vec() { ranges.push(json!([ord[i], ord[i], ["open range disagrees with nodes_iter"]])); }
+                            ranges.push(json!([ord[i], ord[j], r]));
+                        }
+                        json!({"order": ord, "pos_inc": pos_inc, "atpos_ok": atpos_ok, "valid": valid, "ranges": ranges})
+                    }}}
+                    o["ac"] = match &self.obj { Obj::AGD(a) => acobs!(a), Obj::ASD(a) => acobs!(a), _ => json!({}) };
+                }
                 log.ev(o);
                 return;
+            }
+            "ac_wrap" => {
+                let via_tryfrom = op["via"] == "try_from";
+                let (newobj, ret) = match &self.obj {
+                    Obj::GD(g) => match if via_tryfrom { Acyclic::try_from(g.clone()) } else { Acyclic::try_from_graph(g.clone()) } {
+                        Ok(a) => (Some(Obj::AGD(a)), rs("ok")),
+                        Err(c) => (None, json!(["cycle", c.node_id().index()])),
+                    },
+                    Obj::SD(g) => match if via_tryfrom { Acyclic::try_from(g.clone()) } else { Acyclic::try_from_graph(g.clone()) } {
+                        Ok(a) => (Some(Obj::ASD(a)), rs("ok")),
+                        Err(c) => (None, json!(["cycle", c.node_id().index()])),
+                    },
+                    _ => panic!("ac_wrap on a non-directed or already wrapped container"),
+                };
+                if let Some(o) = newobj { self.obj = o; }
+                want_st = true;
+                ret
+            }
+            "ac_unwrap" => {
+                let old = std::mem::replace(&mut self.obj, Obj::GD(Graph::with_capacity(0, 0)));
+                self.obj = match old { Obj::AGD(a) => Obj::GD(a.into_inner()), Obj::ASD(a) => Obj::SD(a.into_inner()), o => o };
+                want_st = true;
+                rs("ok")
+            }
+            "ac_add_node" => {
+                let w = self.fresh();
+                ev["w"] = json!(w);
+                match &mut self.obj {
+                    Obj::AGD(a) => or_panic(guard(|| ri(a.add_node(w).index()))),
+                    Obj::ASD(a) => or_panic(guard(|| ri(a.add_node(w).index()))),
+                    _ => panic!("not wrapped"),
+                }
+            }
+            "ac_try_add_edge" | "ac_try_update_edge" | "ac_build_add_edge" | "ac_build_update_edge" => {
+                let (a, b) = (u(op, "a"), u(op, "b"));
+                let w = match op.get("w").and_then(|x| x.as_i64()) { Some(x) => x as i32, None => self.fresh() };
+                ev["w"] = json!(w);
+                want_st = true;
+                fn aerr<N>(e: AcyclicEdgeError<N>) -> Value {
+                    match e { AcyclicEdgeError::Cycle(_) => json!(["err_s", "Cycle"]), AcyclicEdgeError::SelfLoop => json!(["err_s", "SelfLoop"]), AcyclicEdgeError::InvalidEdge => json!(["err_s", "InvalidEdge"]) }
+                }
+                macro_rules! edgeop { ($g:expr) => {{
+                    let g = $g;
+                    match name.as_str() {
+                        "ac_try_add_edge" => or_panic(guard(|| match g.try_add_edge(ni(a), ni(b), w) { Ok(e) => json!(["ok_i", e.index()]), Err(e) => aerr(e) })),
+                        "ac_try_update_edge" => or_panic(guard(|| match g.try_update_edge(ni(a), ni(b), w) { Ok(e) => json!(["ok_i", e.index()]), Err(e) => aerr(e) })),
+                        "ac_build_add_edge" => or_panic(guard(|| match Build::add_edge(g, ni(a), ni(b), w) { Some(e) => ri(e.index()), None => rnone() })),
+                        _ => or_panic(guard(|| ri(Build::update_edge(g, ni(a), ni(b), w).index()))),
+                    }
+                }}}
+                match &mut self.obj { Obj::AGD(g) => edgeop!(g), Obj::ASD(g) => edgeop!(g), _ => panic!("not wrapped") }
+            }
+            "ac_remove_edge" => {
+                let e = u(op, "e");
+                want_st = true;
+                match &mut self.obj {
+                    Obj::AGD(g) => or_panic(guard(|| opt_w(g.remove_edge(ei(e))))),
+                    Obj::ASD(g) => or_panic(guard(|| opt_w(g.remove_edge(ei(e))))),
+                    _ => panic!("not wrapped"),
+                }
+            }
+            "ac_remove_node" => {
+                let a = u(op, "a");
+                want_st = true;
+                match &mut self.obj {
+                    Obj::AGD(g) => or_panic(guard(|| opt_w(g.remove_node(ni(a))))),
+                    Obj::ASD(g) => or_panic(guard(|| opt_w(g.remove_node(ni(a))))),
+                    _ => panic!("not wrapped"),
+                }
             }
             _ => panic!("unknown mg op {}", name),
         };
@@ -584,6 +718,12 @@ impl<Ix: IndexType> Driver<Ix> {
         }
         if want_st || op.get("want_st").is_some() {
             ev["st"] = self.project();
+        }
+        if name.starts_with("ac_") {
+            let (ord, pos_inc, atpos_ok) = self.ac_info();
+            ev["order"] = json!(ord);
+            ev["pos_inc"] = json!(pos_inc);
+            ev["atpos_ok"] = json!(atpos_ok);
         }
         log.ev(ev);
     }
@@ -837,6 +977,93 @@ pub fn gen_scenarios(seed: u64, segments: usize, stable: bool, log: &mut Log) {
             0 => scenario_segment::<Ix3>("ix3", stable, directed, &mut rng, log),
             1 => scenario_segment::<Ix4>("ix4", stable, directed, &mut rng, log),
             _ => scenario_segment::<Ix7>("ix7", stable, directed, &mut rng, log),
+        }
+    }
+}
+
+/// C14: histories on Acyclic<DiGraph> / Acyclic<StableDiGraph>: build a (possibly cyclic) graph, wrap it,
+/// then add nodes / edges (forward, backward, self, cycle-closing), remove edges and nodes (non-last,
+/// absent, repeated), re-wrap after unwrapping and mutating.
+pub fn acyclic_segment<Ix: IndexType>(ixname: &str, stable: bool, len: usize, rng: &mut Rng, log: &mut Log) {
+    let mut d: Driver<Ix> = Driver::new(ixname);
+    let ixmax = maxix::<Ix>();
+    d.apply(&json!({"op":"reset","kind": if stable {"stable"} else {"graph"},"directed":true,"ctor":"with_capacity"}), log, rng);
+    // initial graph: a few nodes, edges mostly low -> high (acyclic) and sometimes not
+    let n0 = 1 + rng.below(5.min(ixmax));
+    for _ in 0..n0 { d.apply(&json!({"op":"add_node"}), log, rng); }
+    let cyclic_start = rng.chance(1, 4);
+    for _ in 0..rng.below(6) {
+        let (a, b) = (rng.below(n0), rng.below(n0));
+        let (a, b) = if cyclic_start || a < b { (a, b) } else { (b, a) };
+        if a == b && !cyclic_start { continue; }
+        d.apply(&json!({"op":"add_edge","a":a,"b":b}), log, rng);
+    }
+    if stable && rng.chance(1, 2) && n0 > 1 {
+        d.apply(&json!({"op":"remove_node","a":rng.below(n0)}), log, rng);   // a vacancy before wrapping
+    }
+    d.apply(&json!({"op":"ac_wrap","via": if rng.chance(1,2) {"try_from"} else {"try_from_graph"}}), log, rng);
+    let mut steps = 0;
+    while steps < len {
+        steps += 1;
+        if !d.is_acyclic_wrapped() {
+            // not wrapped (cyclic, or unwrapped on purpose): break a cycle / mutate, then try again
+            let le = d.live_edges();
+            if !le.is_empty() && rng.chance(2, 3) {
+                d.apply(&json!({"op":"remove_edge","e":le[rng.below(le.len())]}), log, rng);
+            } else {
+                let ln = d.live_nodes();
+                if ln.len() >= 2 && rng.chance(1, 2) {
+                    d.apply(&json!({"op":"add_edge","a":ln[rng.below(ln.len())],"b":ln[rng.below(ln.len())]}), log, rng);
+                } else if d.counts().0 < ixmax.min(7) {
+                    d.apply(&json!({"op":"add_node"}), log, rng);
+                }
+            }
+            d.apply(&json!({"op":"ac_wrap","via": if rng.chance(1,2) {"try_from"} else {"try_from_graph"}}), log, rng);
+            continue;
+        }
+        let ln = d.live_nodes();
+        let (nc, ec, nb, eb) = d.counts();
+        let r = rng.below(100);
+        let op = if r < 14 {
+            if nc >= ixmax.min(8) { continue; }
+            json!({"op":"ac_add_node"})
+        } else if r < 62 {
+            if ln.is_empty() || ec >= ixmax.min(14) { continue; }
+            let a = ln[rng.below(ln.len())];
+            let b = if rng.chance(1, 10) { a } else { ln[rng.below(ln.len())] };
+            json!({"op": *rng.pick(&["ac_try_add_edge","ac_try_add_edge","ac_try_update_edge","ac_build_add_edge","ac_build_update_edge"]),"a":a,"b":b})
+        } else if r < 72 {
+            let le = d.live_edges();
+            let e = if !le.is_empty() && rng.chance(4, 5) { le[rng.below(le.len())] } else { rng.below(eb + 2) };
+            json!({"op":"ac_remove_edge","e":e.min(ixmax)})
+        } else if r < 86 {
+            // present (often not the last index), absent, or a repeat of an earlier removal
+            let a = if !ln.is_empty() && rng.chance(3, 4) { ln[rng.below(ln.len())] } else { rng.below(nb + 2) };
+            if !stable && d.degree(a) > 5 { continue; }
+            json!({"op":"ac_remove_node","a":a.min(ixmax)})
+        } else if r < 90 {
+            json!({"op":"noeffect","which":"clone"})
+        } else if r < 93 {
+            json!({"op":"ac_unwrap"})
+        } else {
+            json!({"op":"obs"})
+        };
+        d.apply(&op, log, rng);
+        if steps % 9 == 8 {
+            d.apply(&json!({"op":"obs"}), log, rng);
+        }
+    }
+    d.apply(&json!({"op":"obs"}), log, rng);
+}
+
+pub fn gen_acyclic(seed: u64, segments: usize, len: usize, log: &mut Log) {
+    let mut rng = Rng::new(seed ^ 0xac1c);
+    for i in 0..segments {
+        let stable = i % 2 == 1;
+        match i % 4 {
+            0 | 1 => acyclic_segment::<u32>("u32", stable, len, &mut rng, log),
+            2 => acyclic_segment::<Ix7>("ix7", stable, len, &mut rng, log),
+            _ => acyclic_segment::<u8>("u8", stable, len, &mut rng, log),
         }
     }
 }
